@@ -2,7 +2,7 @@ use serde_json::{json, Value};
 use std::fs::OpenOptions;
 use tensor_chain::raft_wal::{RaftRecoveryState, RaftWal, RaftWalEntry};
 use tensor_chain::tx_wal::{TxOutcome, TxWal, TxWalEntry};
-use tensor_store::{TensorWal, WalConfig, WalEntry};
+use tensor_store::{SyncMode, TensorWal, WalConfig, WalEntry};
 
 fn tmpdir() -> std::path::PathBuf {
     let base = std::env::var("VERIF_BUILD").unwrap_or_else(|_| "/verif/.build".into());
@@ -154,8 +154,55 @@ fn tensor_torn(req: &Value) -> Value {
            "replay2_ok": r2_ok, "new_record_recovered": r2_has_new, "replay2_prefix_matches": r2_prefix})
 }
 
+/// manual-sync scenario: steps "rN" (append record N), "sync", "truncate"; then optionally flush (the OS has the
+/// buffered bytes, nothing fsynced), "crash" = copy the file as it is on disk while the writer is still alive, cut it to
+/// `cut` bytes (mapped proportionally when frame sizes differ), reopen and replay.
+fn tensor_manual(req: &Value) -> Value {
+    let dir = tmpdir();
+    let path = dir.join("store.wal");
+    let cfg = || WalConfig { sync_mode: SyncMode::Manual, ..WalConfig::default() };
+    let mut wal = TensorWal::open(&path, cfg()).unwrap();
+    let mut errs = vec![];
+    for s in req["steps"].as_array().into_iter().flatten() {
+        let s = s.as_str().unwrap_or("");
+        let r = match s {
+            "sync" => wal.sync().map(|_| ()).map_err(|e| e.to_string()),
+            "truncate" => wal.truncate().map_err(|e| e.to_string()),
+            _ => wal.append(&ts_rec(s[1..].parse().unwrap_or(0))).map(|_| ()).map_err(|e| e.to_string()),
+        };
+        if let Err(e) = r {
+            errs.push(format!("{s}: {e}"));
+        }
+    }
+    if req["flushed"].as_bool().unwrap_or(false) {
+        let _ = wal.flush();
+    }
+    let disk_len = std::fs::metadata(&path).map(|m| m.len()).unwrap_or(0);
+    let crash = dir.join("crashed.wal");
+    std::fs::copy(&path, &crash).unwrap();
+    // model frame = 10 bytes per record at payload 2; scale the cut to real record boundaries
+    let mlen = req["len"].as_u64().unwrap_or(0).max(1);
+    let mcut = req["cut"].as_u64().unwrap_or(mlen);
+    let cut = if mcut >= mlen { disk_len } else {
+        let frame = 10u64;
+        let real_frame = if mlen / frame > 0 { disk_len / (mlen / frame).max(1) } else { disk_len };
+        (mcut / frame) * real_frame + map_offset(mcut % frame, frame, real_frame.max(1))
+    };
+    OpenOptions::new().write(true).open(&crash).unwrap().set_len(cut.min(disk_len)).unwrap();
+    let out = match TensorWal::open(&crash, cfg()).map_err(|e| e.to_string()).and_then(|w| w.replay().map_err(|e| e.to_string())) {
+        Ok(es) => json!({"ok": true, "names": es.iter().map(|e| match e {
+            WalEntry::MetadataDelete { key } => format!("r{}", key.trim_start_matches("key-")),
+            _ => "?".to_string() }).collect::<Vec<_>>()}),
+        Err(e) => json!({"ok": false, "error": e}),
+    };
+    drop(wal);
+    let _ = std::fs::remove_dir_all(&dir);
+    json!({"disk_len": disk_len, "cut": cut, "step_errors": errs, "replay": out})
+}
+
 pub fn handle(op: &str, req: &Value) -> Option<Value> {
     Some(match op {
+        "wal_manual" => tensor_manual(req),
         "wal_torn" => match req["wal"].as_str().unwrap_or("") {
             "raft" => raft_torn(req),
             "tx" => tx_torn(req),
